@@ -35,7 +35,15 @@ func (e *Exec) funcEnv(fr *Frame, st *State) *Env {
 			pt, ok := fv.Type().Underlying().(*types.Pointer)
 			if ok {
 				if _, isStruct := pt.Elem().Underlying().(*types.Struct); !isStruct || isOpaqueStruct(pt.Elem()) {
-					env.vars[fv.Name()] = e.readCell(st, fr.fvals[i].t(), pt.Elem())
+					if cv, ok := e.fvDeref[fv]; ok && fr.top {
+						env.vars[fv.Name()] = cv
+					} else if fr.top && !storedTo(fr.fn, fv) {
+						cv := e.nameVal("fv_"+fv.Name()+"_val", e.readCell(st, fr.fvals[i].t(), pt.Elem()), pt.Elem())
+						e.fvDeref[fv] = cv
+						env.vars[fv.Name()] = cv
+					} else {
+						env.vars[fv.Name()] = e.readCell(st, fr.fvals[i].t(), pt.Elem())
+					}
 					env.vars["&"+fv.Name()] = fr.fvals[i]
 					continue
 				}
